@@ -11,7 +11,7 @@ from props import C26
 
 ID = 'C44'
 LEVEL = 'other'
-ENGINE = 'pysym+llsym'
+ENGINE = 'pysym'
 TECHNIQUE = ('cross-language symbolic equivalence: the real Python functions of mjx/_src/io.py (state_size, _state_elem_size, get_state, set_state) are executed on z3 terms (symbolic model dimensions / symbolic array cells), '
              'the real C functions mj_stateSize / mj_getState / mj_setState are executed by llsym from LLVM IR with the signature a free 32-bit variable; z3 decides equality of sizes, of every output cell and of every written field')
 EXPLANATION = ('io.py is loaded by path from /repo with its heavy imports (jax, warp, trimesh-dependent modules) replaced by inert stand-ins and mujoco.mjtState rebuilt from /repo\'s mjtype.h, so the code under test is the '
